@@ -1,22 +1,35 @@
 """C10 - Triangulate returns a correct triangulation."""
 import os, re
+from concurrent.futures import ThreadPoolExecutor
 from vlib import core, cases, libs
 
 LEVEL = "proof"
-PROPS = ["MV/Props/C10.lean"]
+PROPS = ["MV/Props/C10.lean", "MV/Props/C10b.lean"]
 ASSUMPTIONS = [
     "theorems (chain invariant for EVERY clip/join sequence, exit condition, count, halfedge pairing, convex strip) are about MV/Model/EarClip.lean; "
     "tied to src/polygon.cpp by replaying the hook-logged ClipEar/JoinPolygons decisions of the real run on the model: identical triangle list, rings closed, net = contours, all halfedges paired",
     "geometric clauses (counter-clockwise within epsilon, areas sum to the polygon area, no overlap) are checked by a long-double oracle on generated epsilon-valid polygon sets only; rounding is not in the theorems",
+    "C10b: the geometric decisions (CCW, IsConvex incl. normalisation / zero-length edges / early return, TriangulateConvex, EarClip epsilon derivation, Vert::IsShort/Interior/InsideEdge/IsConvex/IsReflex/"
+    "InterpY2X/SignedDist/Cost/DelaunayCost/EarCost, ClipIfDegenerate's test) are the Scalar-polymorphic definitions of MV/Model/PolyGeom.lean; theorems of MV/Props/C10b.lean are about them at Option F "
+    "(F any linearly ordered field, none = NaN, exact arithmetic, sqrt = any normaliser positive on positives; MV/Proof/PolyGeomReal.lean: the real square root qualifies); tied to src/polygon.cpp by "
+    "harness/c10_polygeom.cpp, which #includes polygon.cpp with `private` opened and calls the real functions, the model run at Float: verdicts exact, floats as IEEE bit patterns "
+    "(the SIGN of a zero EarCost is canonicalised on both sides: it depends on the k-d tree report order of tied candidates and is not observable)",
+    "C10b NOT carried: rounding (the theorems are exact-arithmetic; underflow of dot(edge,edge) to 0 for a non-zero edge gives x/0 = inf in the code, outside the Option-F model, inside the Float tie); "
+    "locally convex + simple => convex position (convex_strip_ccw_partial assumes convex position; checked per run by oracle (b)); FindStart's area classification, CutKeyhole's CheckEdge fold, "
+    "FindCloserBridge and the ear-queue order stay oracle arguments replayed from the hook log",
 ]
 
 
 def run(ctx):
-    cov = core.proof_gate(ctx.pid, PROPS, ["MV.Props.C10"] if ctx.tier == "thorough" else None)
-    cov["checker_cmd"] = "cd lean && lake build MV mvdriver && lake env lean <#print axioms for every theorem of MV/Props/C10.lean>"
-    cov["trusted_base"] = core.TRUSTED_BASE + ["MANIFOLD_VERIF hooks onEarStart/onEarClip/onEarJoin in src/polygon.cpp"]
     libs.build("ser")
-    exe = core.compile_harness("c10_earclip", [os.path.join(core.ROOT, "harness", "c10_earclip.cpp")], libs.cxx_flags("ser"), libs=libs.link_flags("ser"))
+    with ThreadPoolExecutor(max_workers=2) as ex:   # the two harness builds run while the proof gate is busy
+        f1 = ex.submit(core.compile_harness, "c10_earclip", [os.path.join(core.ROOT, "harness", "c10_earclip.cpp")], libs.cxx_flags("ser"), None, 1800, libs.link_flags("ser"))
+        f2 = ex.submit(core.compile_harness, "c10_polygeom", [os.path.join(core.ROOT, "harness", "c10_polygeom.cpp")], libs.cxx_flags("ser"), None, 1800, libs.link_flags("ser"))
+        cov = core.proof_gate(ctx.pid, PROPS, ["MV.Props.C10", "MV.Props.C10b"] if ctx.tier == "thorough" else None)
+        exe, exe_g = f1.result(), f2.result()
+    cov["checker_cmd"] = "cd lean && lake build MV mvdriver && lake env lean <#print axioms for every theorem of MV/Props/C10.lean and MV/Props/C10b.lean>"
+    cov["trusted_base"] = core.TRUSTED_BASE + ["MANIFOLD_VERIF hooks onEarStart/onEarClip/onEarJoin in src/polygon.cpp",
+                                               "`#define private public` around `#include \"polygon.cpp\"` in harness/c10_polygeom.cpp (access only; the code executed is the real one)"]
     cs, stats = cases.run_case_harness(ctx, exe, [250 if ctx.tier == "quick" else 3000])
     skipped = {}
 
@@ -37,9 +50,27 @@ def run(ctx):
                 bad.append(c)
     for c in bad:
         ctx.finding("count", "triangle count differs from V-2+2h-2(o-1) minus skipped degenerates: " + c["tag"], {"case": c["tag"], "request": c["req"], "implementation": c["exp"]})
+    # C10b: geometric decisions, model at Float vs the real functions
+    quick = ctx.tier == "quick"
+    cg0, st0 = cases.run_case_harness(ctx, exe_g, [1500 if quick else 12000, 0])
+    cg1, st1 = cases.run_case_harness(ctx, exe_g, [400 if quick else 3000, 1])
+    g0 = cases.correspond(ctx, cg0, "CCW / IsConvex / TriangulateConvex / EarClip epsilon: MV.PolyGeom at Float vs the real functions (bit patterns)")
+    g1 = cases.correspond(ctx, cg1, "EarClip::Vert predicates (IsShort, IsConvex, IsReflex, InsideEdge, Interior, InterpY2X, EarCost, Clipped, ClipIfDegenerate test): MV.PolyGeom at Float vs the real members")
     cov.update(c2)
+    for g in (g0, g1):
+        for k in ("evaluations", "model_vs_impl_compared", "distinct_nontrivial", "mismatches", "property_failures"):
+            cov[k] = cov.get(k, 0) + g.get(k, 0)
+        for k, v in g["kinds"].items():
+            cov["kinds"][k] = cov["kinds"].get(k, 0) + v
+    cov["parts"] = {"earclip_replay": c2, "polygeom_convex": g0, "polygeom_verts": g1}
+    cov["polygeom_input_stats"] = {"convex": st0, "verts": st1}
     cov["count_formula_checked"] = len(skipped)
     cov["rule"] = ("polygon sets: convex n-gons, jagged stars, stars with up to 4 clockwise holes, islands inside holes, staircases with collinear runs, 1-3 outers, "
-                   "random collinear/duplicate vertex insertion, similarity transforms with scale 1e-6..1e6; each run with allowConvex on and off; distinct = distinct request lines")
+                   "random collinear/duplicate vertex insertion, similarity transforms with scale 1e-6..1e6; each run with allowConvex on and off; distinct = distinct request lines. "
+                   "C10b: rings regular / jagged star / convex lattice / lattice L / random lattice (non-simple) / all-equal points / fewer than 3 vertices, optionally a second contour and a clockwise hole; "
+                   "decorations: exact duplicates at convex AND reflex corners (also triples), exactly collinear midpoints, midpoints pushed in or out by {0.25..4} x tolerance, spikes; "
+                   "scales 2^-20..2^20 (exact) and 1e-6..1e6 with rotation; epsilon in {0, 1e-12, 1e-10, 1e-7, 1e-5, 1} x scale, -1 (derived), NaN; 4% of sets get a NaN/inf/1e308/denormal/-0 coordinate; "
+                   "per set: IsConvex verdict, strip triangles, 3 CCW triples (near-collinear by 2^-k), working epsilon; per EarClip state (after Initialize, half of them after ClipIfDegenerate): every predicate on every live vertex, "
+                   "InsideEdge on 2 random tails per vertex, EarCost with the real collider on every ring of >= 3 live vertices; oracles (a) accepted => no right turn after de-duplication, (b) accepted simple ring => strip CCW and area-exact")
     cov["samples"] = [{"case": c["tag"], "request": core.clip(c["req"], 200), "answer": core.clip(c["exp"], 120)} for c in cs[1:5]]
     return cov
